@@ -150,35 +150,7 @@ var posCheck = hx.NewCheck("token_positions", oraclePos)
 
 func TestTokenPositions(t *testing.T) {
 	hx.Rule("token_positions", "G-LEX texts with arbitrary line structure; every token/comment start and end vs generated line:column (exact on ASCII tab-free line prefixes, line number otherwise), 1-based, ordered, inside input; non-trivial = multi-line text with a comment or multi-line literal before a checked token; distinct = (kinds, separator classes)")
-	posCheck.Rapid(t, hx.N(120000, 1200000), func(rt *rapid.T) PosCase {
-		f := features()
-		lx := lexgen.GenLexemes(rt, f, 25)
-		tx := lexgen.Render(lx, lexgen.GenSeps(rt, f, lx, "s"))
-		multiline := strings.Contains(tx.Src, "\n")
-		before := false
-		for i, tk := range tx.Tokens {
-			if i+1 < len(tx.Tokens) && strings.Contains(tk.Text, "\n") {
-				before = true
-			}
-		}
-		if len(tx.Comments) > 0 && len(tx.Tokens) > 0 && tx.Comments[0].Off < tx.Tokens[len(tx.Tokens)-1].Off {
-			before = true
-		}
-		var kinds []string
-		for _, l := range lx {
-			kinds = append(kinds, l.Kind)
-		}
-		var cl []string
-		if multiline {
-			cl = append(cl, "multiline")
-		}
-		if before {
-			cl = append(cl, "comment_or_multiline_literal_before_token")
-		}
-		hx.Case("token_positions", multiline && before, strings.Join(kinds, ",")+"|"+strings.Join(tx.SepClass, ","), cl...)
-		hx.Sample("token_positions", tx.Src)
-		return PosCase{tx}
-	})
+	posCheck.Rapid(t, hx.N(120000, 1200000), genPositions)
 }
 
 // ---------------------------------------------------------------- tokenizer error locations
@@ -409,33 +381,73 @@ var perrCheck = hx.NewCheck("parser_error_location", oraclePErr)
 
 func TestParserErrorLocation(t *testing.T) {
 	hx.Rule("parser_error_location", "G-SQL statement with one token-level corruption (delete/duplicate/swap/replace/insert/truncate, or a stray ']' that no viable prefix admits), laid out over several lines with comments, parsed with position tracking; a set error location must be the start of a token at or after the first corrupted token, and exactly the stray token for that family; the first error of recovery parsing of the same tokens must be located at the same place; non-trivial = corruption not on line 1; distinct = (kind, position, layout)")
-	perrCheck.Rapid(t, hx.N(120000, 1200000), func(rt *rapid.T) PErrCase {
-		g := sqlgen.New(rt, sqlgen.AllFeatures())
-		st := sqlgen.Statement(g)
-		var r corrupt.Result
-		exact := false
-		if rapid.IntRange(0, 2).Draw(rt, "family") > 0 {
-			if s, ok := corrupt.InsertStray(rt, st.Toks); ok {
-				r, exact = s, true
-			}
-		}
-		if !exact {
-			if len(st.Toks) < 2 {
-				st.Toks = append(st.Toks, sqlgen.Tok{Text: ";"})
-			}
-			r = corrupt.Apply(rt, st.Toks)
-		}
-		if len(r.Toks) == 0 {
-			r.Toks = []sqlgen.Tok{{Text: ")"}}
-			r.First = 0
-		}
-		lx := sqlgen.Lexemes(r.Toks)
-		f := lexgen.Features{StringStartsWithDoubledQuote: true, TrailingComment: true, Comments: true}
-		tx := lexgen.Render(lx, lexgen.GenSeps(rt, f, lx, "l"))
-		first := r.First
-		nt := first < len(tx.Tokens) && tx.Tokens[first].Line > 1
-		hx.Case("parser_error_location", nt, fmt.Sprintf("%s|%d|%s", r.Kind, first, strings.Join(tx.SepClass, ",")), "kind_"+r.Kind)
-		hx.Sample("parser_error_location", tx.Src)
-		return PErrCase{Src: tx.Src, Tokens: tx.Tokens, First: first, Exact: exact, Kind: r.Kind}
-	})
+	perrCheck.Rapid(t, hx.N(120000, 1200000), genParserErrorPositions)
 }
+
+// genPositions is the case generator of posCheck (shared by the rapid run and the native fuzz target).
+func genPositions(rt *rapid.T) PosCase {
+	f := features()
+	lx := lexgen.GenLexemes(rt, f, 25)
+	tx := lexgen.Render(lx, lexgen.GenSeps(rt, f, lx, "s"))
+	multiline := strings.Contains(tx.Src, "\n")
+	before := false
+	for i, tk := range tx.Tokens {
+		if i+1 < len(tx.Tokens) && strings.Contains(tk.Text, "\n") {
+			before = true
+		}
+	}
+	if len(tx.Comments) > 0 && len(tx.Tokens) > 0 && tx.Comments[0].Off < tx.Tokens[len(tx.Tokens)-1].Off {
+		before = true
+	}
+	var kinds []string
+	for _, l := range lx {
+		kinds = append(kinds, l.Kind)
+	}
+	var cl []string
+	if multiline {
+		cl = append(cl, "multiline")
+	}
+	if before {
+		cl = append(cl, "comment_or_multiline_literal_before_token")
+	}
+	hx.Case("token_positions", multiline && before, strings.Join(kinds, ",")+"|"+strings.Join(tx.SepClass, ","), cl...)
+	hx.Sample("token_positions", tx.Src)
+	return PosCase{tx}
+}
+
+// FuzzPositions: coverage-guided search over the same generator (thorough tier).
+func FuzzPositions(f *testing.F) { posCheck.Fuzz(f, genPositions) }
+
+// genParserErrorPositions is the case generator of perrCheck (shared by the rapid run and the native fuzz target).
+func genParserErrorPositions(rt *rapid.T) PErrCase {
+	g := sqlgen.New(rt, sqlgen.AllFeatures())
+	st := sqlgen.Statement(g)
+	var r corrupt.Result
+	exact := false
+	if rapid.IntRange(0, 2).Draw(rt, "family") > 0 {
+		if s, ok := corrupt.InsertStray(rt, st.Toks); ok {
+			r, exact = s, true
+		}
+	}
+	if !exact {
+		if len(st.Toks) < 2 {
+			st.Toks = append(st.Toks, sqlgen.Tok{Text: ";"})
+		}
+		r = corrupt.Apply(rt, st.Toks)
+	}
+	if len(r.Toks) == 0 {
+		r.Toks = []sqlgen.Tok{{Text: ")"}}
+		r.First = 0
+	}
+	lx := sqlgen.Lexemes(r.Toks)
+	f := lexgen.Features{StringStartsWithDoubledQuote: true, TrailingComment: true, Comments: true}
+	tx := lexgen.Render(lx, lexgen.GenSeps(rt, f, lx, "l"))
+	first := r.First
+	nt := first < len(tx.Tokens) && tx.Tokens[first].Line > 1
+	hx.Case("parser_error_location", nt, fmt.Sprintf("%s|%d|%s", r.Kind, first, strings.Join(tx.SepClass, ",")), "kind_"+r.Kind)
+	hx.Sample("parser_error_location", tx.Src)
+	return PErrCase{Src: tx.Src, Tokens: tx.Tokens, First: first, Exact: exact, Kind: r.Kind}
+}
+
+// FuzzParserErrorPositions: coverage-guided search over the same generator (thorough tier).
+func FuzzParserErrorPositions(f *testing.F) { perrCheck.Fuzz(f, genParserErrorPositions) }
